@@ -357,12 +357,19 @@ func c14Learning(c *wk.Ctx, idx int64, r *rand.Rand, s *packet.Session, h *icmp_
 	cs := func() any { return map[string]any{"index": idx, "ra_frame_hex": wk.Hex(b)} }
 	c.Eval()
 	if pi := c.Guard("C08", cs, func() {
+		// as in the read loop, every frame arrives in the same receive buffer, which the next frame overwrites: what the
+		// router table records must not depend on the buffer afterwards
+		rx := make([]byte, packet.EthMaxSize)
 		for k := 0; k < 4; k++ {
-			frame, err := s.Parse(append([]byte(nil), b...))
+			n := copy(rx, b)
+			frame, err := s.Parse(rx[:n])
 			if err != nil {
 				panic("HARNESS BUG: RA frame rejected: " + err.Error())
 			}
 			h.ProcessPacket(frame)
+		}
+		for i := range rx {
+			rx[i] = 0xa5
 		}
 	}); pi != nil {
 		return
